@@ -78,6 +78,7 @@ def parseN (cs : List Char) : Option Nat :=
 
 def hintOf (s : String) : Option Hint :=
   if s = "C" then some .c
+  else if s = "Rust" then some .rust
   else if s = "transparent" then some .transparent
   else if s = "packed" then some (.packed 1)
   else match intTyOf s with
